@@ -216,6 +216,8 @@ PIPELINES = {
     "slice_alias_count_unordered": lambda t, u: t >> pdt.slice_head(4) >> pdt.alias("s") >> pdt.summarize(n=pdt.count()),
     "summarize_alias_count": lambda t, u: t >> pdt.group_by(t.i8) >> pdt.summarize(m=t.i64.max()) >> pdt.alias("s") >> pdt.summarize(n=pdt.count()),
     "cross_join_sliced_alias_left_columns_only": lambda t, u: (lambda s: u >> pdt.cross_join(s) >> pdt.select(u.i64, u.s))(t >> pdt.slice_head(2) >> pdt.alias("s")),
+    # the sort key of a window function above a subquery is a bare column that nothing else references and that is not selected at the end
+    "window_key_only_in_arrange_above_subquery": lambda t, u: t >> pdt.mutate(r=pdt.row_number(arrange=t.i64)) >> pdt.alias("s") >> pdt.filter(pdt.C.r > 1) >> pdt.mutate(w=pdt.C.f64.shift(1, arrange=pdt.C.i32), rk=pdt.rank(arrange=pdt.C.d.descending())) >> pdt.select(pdt.C.w, pdt.C.rk),
     "slice_chain": lambda t, u: t >> pdt.arrange(t.s) >> pdt.slice_head(10, offset=2) >> pdt.slice_head(3, offset=1),
     "join_inner_left": lambda t, u: t >> pdt.join(u, (t.i64 == u.i64) & (t.s == u.s), "left") >> pdt.mutate(z=t.f64 + u.f64),
     "join_inequality": lambda t, u: t >> pdt.inner_join(u, [t.i64 <= u.i64, t.d == u.d]) >> pdt.select(t.i64, u.i64),
